@@ -80,7 +80,7 @@ func tierFromEnv(def string) string {
 func cmdHarness(args []string) int {
 	fs := flag.NewFlagSet("harness", flag.ExitOnError)
 	tier := fs.String("tier", "quick", "tier")
-	workers := fs.Int("workers", 8, "workers")
+	workers := fs.Int("workers", 14, "workers")
 	tmo := fs.Int("timeout", 20000, "solver timeout ms")
 	solvers := fs.String("solvers", "z3new,cvc5,z3", "solver order")
 	noReplay := fs.Bool("noreplay", false, "skip native replay")
